@@ -28,6 +28,9 @@ def main():
     try:
         bld = 'cmake -G Ninja -S %s -B %s/_build -DFETCHCONTENT_SOURCE_DIR_GOOGLETEST=/usr/src/googletest >/dev/null 2>&1 && cmake --build %s/_build -j16 2>&1 | tail -3' % (wt, wt, wt)
         democmd = 'g++ -std=c++14 -O1 -I%s/include -I%s/_build/generated %s %s/_build/src/libphysica.a -lconfig++ -o %s/demo_bin 2>&1 | tail -5' % (wt, wt, demo, wt, wt)
+        first = open(demo).readline()
+        if first.startswith('// BUILD:'):
+            democmd = 'cd %s && %s 2>&1 | tail -5' % (wt, first[len('// BUILD:'):].strip().replace('$WT', wt).replace('mK_demo.cpp', demo).replace(os.path.basename(demo), demo).replace('-o demo', '-o %s/demo_bin' % wt))
         r = sh('git -C %s apply %s' % (wt, diff))
         if r.returncode: print('patch does not apply:', r.stdout); return 1
         files = sh('git -C %s diff --name-only' % wt).stdout.split()
